@@ -24,7 +24,19 @@
 
    State: what the camera branches on (strm.is_loop_running(), self.ctxt) plus the device-side
    state the fakes of rust/h_camera keep (opened flags, stream enable, TLParamsLocked register,
-   acquisition, loop) and the cache of the three registers in the context. *)
+   acquisition, loop) and the cache of the three registers in the context.
+
+   Two further things the descriptions served by rust/h_camera contain:
+   * a selector-addressed register bank (<IntReg> with <pIndex Offset="4"> over an Integer selector,
+     WriteThrough): the cache of DefaultGenApiCtxt keeps one block per (address, length) of a register
+     node, i.e. one per slot; [c_bank c k] is the cached value of slot k ([None]: not cached since the
+     context was built / the cache was last cleared), [bank s k] the device's own memory of slot k,
+     which the environment may change behind the cache ([CPoke]).  [CBank k] is "select slot k and read
+     the bank through params_ctxt": RegisterBase::with_cache_or_read serves the cached block if there
+     is one, else reads the device and caches what it read.
+   * a description variant in which TLParamsLocked is declared with <pValue> AND <pValueCopy>
+     ([n_copy]): PValue::set_value writes the pValue node, then every copy, each with `?`
+     (genapi/src/ivalue.rs), so the TLParamsLocked step of start / stop is two device writes. *)
 From Cam Require Export Outcome CameraProto.
 
 (* error classes (numbers = rust/h_camera eclass) *)
@@ -42,27 +54,38 @@ Definition E_CTRL_INVALID_DATA : Z := 105.
 (* GenApi context: which SFNC nodes the description defines with the right interface, and which
    register values are cached (TLParamsLocked: the cached value). *)
 Record ctx := { n_tl : bool; n_start : bool; n_stop : bool;
-                c_tl : option bool; c_start : bool; c_stop : bool }.
+                n_copy : bool;                 (* TLParamsLocked has a <pValueCopy> *)
+                c_tl : option bool; c_start : bool; c_stop : bool;
+                c_copy : bool;                 (* a value of the mirror register is cached *)
+                c_bank : Z -> option Z         (* cached value of each bank slot *) }.
 
 Record cam := { opened_ctrl : bool; opened_strm : bool; ctxt : option ctx;
                 stream_enabled : bool; tl_locked : bool; acquiring : bool;
-                loop_running : bool }.
+                loop_running : bool;
+                tl_copy : bool;                (* device: the mirror register of TLParamsLocked *)
+                bank : Z -> Z                  (* device: the memory of the register bank *) }.
 
 Definition cam0 : cam :=
   {| opened_ctrl := false; opened_strm := false; ctxt := None; stream_enabled := false;
-     tl_locked := false; acquiring := false; loop_running := false |}.
+     tl_locked := false; acquiring := false; loop_running := false;
+     tl_copy := false; bank := fun _ => 0 |}.
 
 Definition ctxt_loaded (s : cam) : bool := match ctxt s with Some _ => true | None => false end.
 Definition cache_nonempty (s : cam) : bool :=
   match ctxt s with
   | Some c => (match c_tl c with Some _ => true | None => false end) || c_start c || c_stop c
+              || c_copy c
   | None => false
   end.
+(* the cached value of bank slot k, if any *)
+Definition bank_cache (s : cam) (k : Z) : option Z :=
+  match ctxt s with Some c => c_bank c k | None => None end.
 
 (* the device view of the state *)
 Definition dev_of (s : cam) : dev :=
   {| d_copen := opened_ctrl s; d_sopen := opened_strm s; d_enabled := stream_enabled s;
-     d_locked := tl_locked s; d_acq := acquiring s; d_alive := loop_running s |}.
+     d_locked := tl_locked s; d_acq := acquiring s; d_alive := loop_running s;
+     d_copy := tl_copy s |}.
 
 (* error a failing operation surfaces as, seen by the caller of the Camera method:
    ctrl.* -> CameleonError::ControlError(Io), strm.* -> StreamError(Io), a register access through
@@ -71,79 +94,105 @@ Definition err_base (e : effect) : Z :=
   match e with
   | CtrlOpen | CtrlClose | GenApiFetch | EnableStreaming | DisableStreaming => E_CTRL
   | StrmOpen | StrmClose | LoopStart | LoopStop => E_STRM
-  | SetTLParamsLocked _ | AcqStart | AcqStop | GenApiRead => E_GENAPI_DEVICE
-  | LoadCtxt _ _ _ | ClearCache => 0
+  | SetTLParamsLocked _ | AcqStart | AcqStop | GenApiRead | CopyTL _ | BankRead _ => E_GENAPI_DEVICE
+  | LoadCtxt _ _ _ _ | ClearCache | BankPoke _ _ => 0
   end.
 (* the fault is passed on unchanged: same class, wrapped by the layer it went through *)
 Definition err_of (e : effect) (cls : Z) : Z := err_base e + cls.
 Arguments err_of : simpl never.
 
 Definition upd_ctx (f : ctx -> ctx) (s : cam) : cam :=
-  {| opened_ctrl := opened_ctrl s; opened_strm := opened_strm s;
-     ctxt := match ctxt s with Some c => Some (f c) | None => None end;
-     stream_enabled := stream_enabled s; tl_locked := tl_locked s; acquiring := acquiring s;
-     loop_running := loop_running s |}.
+  {| opened_ctrl := opened_ctrl s; opened_strm := opened_strm s; ctxt := match ctxt s with Some c => Some (f c) | None => None end;
+     stream_enabled := stream_enabled s; tl_locked := tl_locked s; acquiring := acquiring s; loop_running := loop_running s;
+     tl_copy := tl_copy s; bank := bank s |}.
 
 (* state change of a successful step *)
 Definition apply_eff (e : effect) (s : cam) : cam :=
   match e with
   | CtrlOpen => {| opened_ctrl := true; opened_strm := opened_strm s; ctxt := ctxt s;
-                   stream_enabled := stream_enabled s; tl_locked := tl_locked s;
-                   acquiring := acquiring s; loop_running := loop_running s |}
+                  stream_enabled := stream_enabled s; tl_locked := tl_locked s; acquiring := acquiring s; loop_running := loop_running s;
+                  tl_copy := tl_copy s; bank := bank s |}
   | CtrlClose => {| opened_ctrl := false; opened_strm := opened_strm s; ctxt := ctxt s;
-                    stream_enabled := stream_enabled s; tl_locked := tl_locked s;
-                    acquiring := acquiring s; loop_running := loop_running s |}
+                   stream_enabled := stream_enabled s; tl_locked := tl_locked s; acquiring := acquiring s; loop_running := loop_running s;
+                   tl_copy := tl_copy s; bank := bank s |}
   | StrmOpen => {| opened_ctrl := opened_ctrl s; opened_strm := true; ctxt := ctxt s;
-                   stream_enabled := stream_enabled s; tl_locked := tl_locked s;
-                   acquiring := acquiring s; loop_running := loop_running s |}
+                  stream_enabled := stream_enabled s; tl_locked := tl_locked s; acquiring := acquiring s; loop_running := loop_running s;
+                  tl_copy := tl_copy s; bank := bank s |}
   | StrmClose => {| opened_ctrl := opened_ctrl s; opened_strm := false; ctxt := ctxt s;
-                    stream_enabled := stream_enabled s; tl_locked := tl_locked s;
-                    acquiring := acquiring s; loop_running := loop_running s |}
+                   stream_enabled := stream_enabled s; tl_locked := tl_locked s; acquiring := acquiring s; loop_running := loop_running s;
+                   tl_copy := tl_copy s; bank := bank s |}
   | GenApiFetch => s
   | EnableStreaming => {| opened_ctrl := opened_ctrl s; opened_strm := opened_strm s; ctxt := ctxt s;
-                          stream_enabled := true; tl_locked := tl_locked s;
-                          acquiring := acquiring s; loop_running := loop_running s |}
+                         stream_enabled := true; tl_locked := tl_locked s; acquiring := acquiring s; loop_running := loop_running s;
+                         tl_copy := tl_copy s; bank := bank s |}
   | DisableStreaming => {| opened_ctrl := opened_ctrl s; opened_strm := opened_strm s; ctxt := ctxt s;
-                           stream_enabled := false; tl_locked := tl_locked s;
-                           acquiring := acquiring s; loop_running := loop_running s |}
+                          stream_enabled := false; tl_locked := tl_locked s; acquiring := acquiring s; loop_running := loop_running s;
+                          tl_copy := tl_copy s; bank := bank s |}
   | SetTLParamsLocked b =>
       (* IntReg::set_value: ctrl.write, then the written bytes are cached (WriteThrough) *)
-      upd_ctx (fun c => {| n_tl := n_tl c; n_start := n_start c; n_stop := n_stop c;
-                           c_tl := Some b; c_start := c_start c; c_stop := c_stop c |})
+      upd_ctx (fun c => {| n_tl := n_tl c; n_start := n_start c; n_stop := n_stop c; n_copy := n_copy c;
+                          c_tl := Some b; c_start := c_start c; c_stop := c_stop c; c_copy := c_copy c;
+                          c_bank := c_bank c |})
         {| opened_ctrl := opened_ctrl s; opened_strm := opened_strm s; ctxt := ctxt s;
-           stream_enabled := stream_enabled s; tl_locked := b;
-           acquiring := acquiring s; loop_running := loop_running s |}
+           stream_enabled := stream_enabled s; tl_locked := b; acquiring := acquiring s; loop_running := loop_running s;
+           tl_copy := tl_copy s; bank := bank s |}
+  | CopyTL b =>
+      (* the same for the register <pValueCopy> refers to *)
+      upd_ctx (fun c => {| n_tl := n_tl c; n_start := n_start c; n_stop := n_stop c; n_copy := n_copy c;
+                          c_tl := c_tl c; c_start := c_start c; c_stop := c_stop c; c_copy := true;
+                          c_bank := c_bank c |})
+        {| opened_ctrl := opened_ctrl s; opened_strm := opened_strm s; ctxt := ctxt s;
+           stream_enabled := stream_enabled s; tl_locked := tl_locked s; acquiring := acquiring s; loop_running := loop_running s;
+           tl_copy := b; bank := bank s |}
   | AcqStart =>
-      upd_ctx (fun c => {| n_tl := n_tl c; n_start := n_start c; n_stop := n_stop c;
-                           c_tl := c_tl c; c_start := true; c_stop := c_stop c |})
+      upd_ctx (fun c => {| n_tl := n_tl c; n_start := n_start c; n_stop := n_stop c; n_copy := n_copy c;
+                          c_tl := c_tl c; c_start := true; c_stop := c_stop c; c_copy := c_copy c;
+                          c_bank := c_bank c |})
         {| opened_ctrl := opened_ctrl s; opened_strm := opened_strm s; ctxt := ctxt s;
-           stream_enabled := stream_enabled s; tl_locked := tl_locked s;
-           acquiring := true; loop_running := loop_running s |}
+           stream_enabled := stream_enabled s; tl_locked := tl_locked s; acquiring := true; loop_running := loop_running s;
+           tl_copy := tl_copy s; bank := bank s |}
   | AcqStop =>
-      upd_ctx (fun c => {| n_tl := n_tl c; n_start := n_start c; n_stop := n_stop c;
-                           c_tl := c_tl c; c_start := c_start c; c_stop := true |})
+      upd_ctx (fun c => {| n_tl := n_tl c; n_start := n_start c; n_stop := n_stop c; n_copy := n_copy c;
+                          c_tl := c_tl c; c_start := c_start c; c_stop := true; c_copy := c_copy c;
+                          c_bank := c_bank c |})
         {| opened_ctrl := opened_ctrl s; opened_strm := opened_strm s; ctxt := ctxt s;
-           stream_enabled := stream_enabled s; tl_locked := tl_locked s;
-           acquiring := false; loop_running := loop_running s |}
+           stream_enabled := stream_enabled s; tl_locked := tl_locked s; acquiring := false; loop_running := loop_running s;
+           tl_copy := tl_copy s; bank := bank s |}
   | LoopStart => {| opened_ctrl := opened_ctrl s; opened_strm := opened_strm s; ctxt := ctxt s;
-                    stream_enabled := stream_enabled s; tl_locked := tl_locked s;
-                    acquiring := acquiring s; loop_running := true |}
+                   stream_enabled := stream_enabled s; tl_locked := tl_locked s; acquiring := acquiring s; loop_running := true;
+                   tl_copy := tl_copy s; bank := bank s |}
   | LoopStop => {| opened_ctrl := opened_ctrl s; opened_strm := opened_strm s; ctxt := ctxt s;
-                   stream_enabled := stream_enabled s; tl_locked := tl_locked s;
-                   acquiring := acquiring s; loop_running := false |}
+                  stream_enabled := stream_enabled s; tl_locked := tl_locked s; acquiring := acquiring s; loop_running := false;
+                  tl_copy := tl_copy s; bank := bank s |}
   | GenApiRead =>
       (* IntReg::value without a cached value: ctrl.read, then the bytes read are cached *)
-      upd_ctx (fun c => {| n_tl := n_tl c; n_start := n_start c; n_stop := n_stop c;
-                           c_tl := Some (tl_locked s); c_start := c_start c; c_stop := c_stop c |}) s
-  | LoadCtxt t a p =>
-      {| opened_ctrl := opened_ctrl s; opened_strm := opened_strm s;
-         ctxt := Some {| n_tl := t; n_start := a; n_stop := p;
-                         c_tl := None; c_start := false; c_stop := false |};
-         stream_enabled := stream_enabled s; tl_locked := tl_locked s;
-         acquiring := acquiring s; loop_running := loop_running s |}
+      upd_ctx (fun c => {| n_tl := n_tl c; n_start := n_start c; n_stop := n_stop c; n_copy := n_copy c;
+                          c_tl := Some (tl_locked s); c_start := c_start c; c_stop := c_stop c; c_copy := c_copy c;
+                          c_bank := c_bank c |}) s
+  | BankRead k =>
+      (* RegisterBase::read_and_cache at address base + 4 * k: ctrl.read, then
+         cx.cache_data(nid, address, length, buf): the block of THIS slot is stored, the blocks of the
+         other slots stay as they are *)
+      upd_ctx (fun c => {| n_tl := n_tl c; n_start := n_start c; n_stop := n_stop c; n_copy := n_copy c;
+                          c_tl := c_tl c; c_start := c_start c; c_stop := c_stop c; c_copy := c_copy c;
+                          c_bank := fun j => if j =? k then Some (bank s k) else c_bank c j |}) s
+  | BankPoke k v =>
+      (* the device changes its own memory; the host is not involved *)
+      {| opened_ctrl := opened_ctrl s; opened_strm := opened_strm s; ctxt := ctxt s;
+         stream_enabled := stream_enabled s; tl_locked := tl_locked s; acquiring := acquiring s; loop_running := loop_running s;
+         tl_copy := tl_copy s; bank := fun j => if j =? k then v else bank s j |}
+  | LoadCtxt t a p y =>
+      (* Ctxt::from_xml: a new context, nothing cached *)
+      {| opened_ctrl := opened_ctrl s; opened_strm := opened_strm s; ctxt := Some {| n_tl := t; n_start := a; n_stop := p; n_copy := y;
+                      c_tl := None; c_start := false; c_stop := false; c_copy := false;
+                      c_bank := fun _ => None |};
+         stream_enabled := stream_enabled s; tl_locked := tl_locked s; acquiring := acquiring s; loop_running := loop_running s;
+         tl_copy := tl_copy s; bank := bank s |}
   | ClearCache =>
-      upd_ctx (fun c => {| n_tl := n_tl c; n_start := n_start c; n_stop := n_stop c;
-                           c_tl := None; c_start := false; c_stop := false |}) s
+      (* DefaultCacheStore::clear: self.store.clear() -- the blocks of every node are dropped *)
+      upd_ctx (fun c => {| n_tl := n_tl c; n_start := n_start c; n_stop := n_stop c; n_copy := n_copy c;
+                          c_tl := None; c_start := false; c_stop := false; c_copy := false;
+                          c_bank := fun _ => None |}) s
   end.
 
 (* ---- the monad -------------------------------------------------------- *)
@@ -201,15 +250,16 @@ Definition cam_open : M Z :=
   ret (-1).
 
 (* The description served by the device: (parses, TLParamsLocked ok, AcquisitionStart ok,
-   AcquisitionStop ok). *)
-Record xmlv := { x_parses : bool; x_tl : bool; x_start : bool; x_stop : bool }.
+   AcquisitionStop ok, TLParamsLocked declared with a <pValueCopy>).  Every description that parses
+   also defines the register bank and its selector. *)
+Record xmlv := { x_parses : bool; x_tl : bool; x_start : bool; x_stop : bool; x_copy : bool }.
 
 (* pub fn load_context(&mut self):
      let xml = self.ctrl.genapi()?; self.ctxt = Some(Ctxt::from_xml(&xml)?); Ok(xml) *)
 Definition cam_load (x : xmlv) : M Z :=
   do_op GenApiFetch ;;;
   need (x_parses x) E_CTRL_INVALID_DATA ;;;
-  emit (LoadCtxt (x_tl x) (x_start x) (x_stop x)) ;;;
+  emit (LoadCtxt (x_tl x) (x_start x) (x_stop x) (x_copy x)) ;;;
   ret (-1).
 
 (* pub fn start_streaming(&mut self, cap: usize) *)
@@ -220,7 +270,8 @@ Definition cam_start (fx : bool) (cap : Z) : M Z :=
   do_op EnableStreaming ;;;                             (* self.ctrl.enable_streaming()?; *)
   c <- params_ctxt ;;                                   (* let mut ctxt = self.params_ctxt()?; *)
   need (n_tl c) E_INVALID_XML ;;;                       (* expect_node!(&ctxt, "TLParamsLocked", as_integer) *)
-  do_op (SetTLParamsLocked true) ;;;                    (*   .set_value(&mut ctxt, 1)?; *)
+  do_op (SetTLParamsLocked true) ;;;                    (*   .set_value(&mut ctxt, 1)?;   PValue::set_value: self.p_value.set_value(..)?; *)
+  (if n_copy c then do_op (CopyTL true) else ret tt) ;;; (*     for nid in self.p_value_copies() { nid.set_value(..)?; } *)
   need (n_start c) E_INVALID_XML ;;;                    (* expect_node!(&ctxt, "AcquisitionStart", as_command) *)
   do_op AcqStart ;;;                                    (*   .execute(&mut ctxt)?; *)
   (if cap =? 0 then panic else ret tt) ;;;              (* channel(cap, DEFAULT_BUFFER_CAP) *)
@@ -236,7 +287,8 @@ Definition cam_stop : M Z :=
   need (n_stop c) E_INVALID_XML ;;;                     (* expect_node!(&ctxt, "AcquisitionStop", as_command) *)
   do_op AcqStop ;;;                                     (*   .execute(&mut ctxt)?; *)
   need (n_tl c) E_INVALID_XML ;;;                       (* expect_node!(&ctxt, "TLParamsLocked", as_integer) *)
-  do_op (SetTLParamsLocked false) ;;;                   (*   .set_value(&mut ctxt, 0)?; *)
+  do_op (SetTLParamsLocked false) ;;;                   (*   .set_value(&mut ctxt, 0)?;   PValue::set_value: self.p_value.set_value(..)?; *)
+  (if n_copy c then do_op (CopyTL false) else ret tt) ;;; (*    for nid in self.p_value_copies() { nid.set_value(..)?; } *)
   do_op DisableStreaming ;;;                            (* self.ctrl.disable_streaming()?; *)
   ret (-1).
 
@@ -259,8 +311,26 @@ Definition cam_params : M Z :=
   | None => do_op GenApiRead ;;; s <- get ;; ret (Z.b2z (tl_locked s))
   end.
 
+(* "bank access": params_ctxt()?, BankSelector.set_value(k) (a value of the context's value store: no
+   device access, nothing invalidated), BankReg.value(): IntRegNode::value ->
+   RegisterBase::with_cache_or_read at address base + 4 * k:
+     if let Some(cache) = cx.get_cache(nid, address, length) { f(cache) }
+     else { self.read_and_cache(..)?; f(&buf) } *)
+Definition cam_bank (k : Z) : M Z :=
+  c <- params_ctxt ;;
+  match c_bank c k with
+  | Some v => ret v
+  | None => do_op (BankRead k) ;;; s <- get ;; ret (bank s k)
+  end.
+
+(* the environment: the device's bank slot k becomes v (no camera method is involved) *)
+Definition cam_poke (k v : Z) : M Z :=
+  emit (BankPoke k v) ;;;
+  ret (-1).
+
 Inductive call :=
-| COpen | CLoad (x : xmlv) | CStart (cap : Z) | CStop | CClose | CParams.
+| COpen | CLoad (x : xmlv) | CStart (cap : Z) | CStop | CClose | CParams
+| CBank (k : Z) | CPoke (k v : Z).
 
 Definition call_body (fx : bool) (c : call) : M Z :=
   match c with
@@ -270,6 +340,8 @@ Definition call_body (fx : bool) (c : call) : M Z :=
   | CStop => cam_stop
   | CClose => cam_close
   | CParams => cam_params
+  | CBank k => cam_bank k
+  | CPoke k v => cam_poke k v
   end.
 
 (* result of one call *)
@@ -310,18 +382,26 @@ Definition eff_code (e : effect) : list Z :=
   | SetTLParamsLocked true => [5] | SetTLParamsLocked false => [6]
   | AcqStart => [7] | AcqStop => [8] | LoopStart => [9] | LoopStop => [10]
   | DisableStreaming => [11] | CtrlClose => [12] | StrmClose => [13] | GenApiRead => [15]
-  | LoadCtxt _ _ _ | ClearCache => []       (* host side: not an event of the fakes *)
+  | CopyTL true => [16] | CopyTL false => [17]
+  | BankRead k => [30 + k]
+  | LoadCtxt _ _ _ _ | ClearCache => []     (* host side: not an event of the fakes *)
+  | BankPoke _ _ => []                      (* environment: not an operation of the camera *)
   end.
+
+Definition is_some {A} (o : option A) : bool := match o with Some _ => true | None => false end.
 
 Definition flags_of (s : cam) : Z :=
   Z.b2z (loop_running s) + 2 * Z.b2z (ctxt_loaded s)
   + match ctxt s with
     | Some c => 4 * Z.b2z (match c_tl c with Some _ => true | None => false end)
                 + 8 * Z.b2z (c_start c) + 16 * Z.b2z (c_stop c)
+                + 2048 * Z.b2z (c_copy c)
+                + 4096 * Z.b2z (is_some (c_bank c 0)) + 8192 * Z.b2z (is_some (c_bank c 1))
+                + 16384 * Z.b2z (is_some (c_bank c 2)) + 32768 * Z.b2z (is_some (c_bank c 3))
     | None => 0
     end
   + 32 * Z.b2z (opened_ctrl s) + 64 * Z.b2z (opened_strm s) + 128 * Z.b2z (stream_enabled s)
-  + 256 * Z.b2z (tl_locked s) + 512 * Z.b2z (acquiring s).
+  + 256 * Z.b2z (tl_locked s) + 512 * Z.b2z (acquiring s) + 1024 * Z.b2z (tl_copy s).
 
 Definition show_call (r : callres) : list Z :=
   let evs := concat (map eff_code (r_effs r)) in
@@ -334,9 +414,13 @@ Definition call_of_Z (z : Z) : call :=
   if z =? 0 then COpen else if z =? 3 then CStop else if z =? 4 then CClose
   else if z =? 5 then CParams
   else if (10 <=? z) && (z <=? 19) then CStart (z - 10)
+  else if (60 <=? z) && (z <=? 63) then CBank (z - 60)
+  else if (1000 <=? z) && (z <? 2024) then CPoke ((z - 1000) / 256) ((z - 1000) mod 256)
+  else if z =? 48 then    (* the conforming description with TLParamsLocked = <pValue> + <pValueCopy> *)
+       CLoad {| x_parses := true; x_tl := true; x_start := true; x_stop := true; x_copy := true |}
   else let v := z - 20 in
        CLoad {| x_parses := v <? 27; x_tl := v mod 3 =? 0; x_start := (v / 3) mod 3 =? 0;
-                x_stop := (v / 9) mod 3 =? 0 |}.
+                x_stop := (v / 9) mod 3 =? 0; x_copy := false |}.
 
 Fixpoint triples_of (l : list Z) : list (nat * nat * Z) :=
   match l with
@@ -361,32 +445,43 @@ Definition good_call (c : call) : Prop :=
 Definition clean (s : cam) : Prop :=
   loop_running s = false /\ tl_locked s = false /\ stream_enabled s = false /\
   acquiring s = false /\ opened_ctrl s = false /\ opened_strm s = false /\
-  cache_nonempty s = false.
+  cache_nonempty s = false /\ (forall k, bank_cache s k = None).
 
 (* operation j is the first one the plan fails *)
 Definition first_fail (plc : nat -> option Z) (j : nat) (cls : Z) : Prop :=
   plc j = Some cls /\ forall k, (k < j)%nat -> plc k = None.
 
 (* the fallible operations among the effects (device / stream accesses; LoadCtxt and ClearCache are
-   host-side steps) *)
+   host-side steps, BankPoke is the environment) *)
 Definition is_access (e : effect) : bool :=
-  match e with LoadCtxt _ _ _ | ClearCache => false | _ => true end.
+  match e with LoadCtxt _ _ _ _ | ClearCache | BankPoke _ _ => false | _ => true end.
 
 (* One session with every single failure point, for the correspondence: the failure-free run, then
    for every call i and every operation j < (operations the failure-free run of call i attempts) the
    run under the plan {(i, j, k)} for every fault class k of [classes i j]; each output is followed by
    the separator -9. *)
-Definition cam_family (fx : bool) (calls : list Z) (classes : nat -> nat -> list Z) : list Z :=
+(* [classes i j e]: the fault classes for operation j of call i, which is the access e in the failure-free run *)
+Definition cam_family_by (fx : bool) (calls : list Z) (classes : nat -> nat -> effect -> list Z) : list Z :=
   let cs := map call_of_Z calls in
   let base := run fx no_failure cs in
   (cam_case fx calls [] ++ [-9]) ++
   concat (map (fun ir : nat * callres =>
                  concat (map (fun j =>
                                concat (map (fun k => cam_case fx calls [Z.of_nat (fst ir); Z.of_nat j; k] ++ [-9])
-                                           (classes (fst ir) j)))
+                                           (classes (fst ir) j (nth j (r_atts (snd ir)) ClearCache))))
                              (seq 0 (r_nops (snd ir)))))
               (combine (seq 0 (length base)) base)).
+
+Definition cam_family (fx : bool) (calls : list Z) (classes : nat -> nat -> list Z) : list Z :=
+  cam_family_by fx calls (fun i j _ => classes i j).
 
 Definition all_classes : nat -> nat -> list Z := fun _ _ => [0; 1; 2; 3; 4; 5; 6; 7].
 Definition one_class (salt : Z) : nat -> nat -> list Z :=
   fun i j => [(salt + Z.of_nat i + Z.of_nat j) mod 8].
+
+(* every class at the write of the <pValueCopy> mirror and at the bank reads, one rotating class elsewhere *)
+Definition focus_classes (salt : Z) : nat -> nat -> effect -> list Z :=
+  fun i j e => match e with
+               | CopyTL _ | BankRead _ => [0; 1; 2; 3; 4; 5; 6; 7]
+               | _ => one_class salt i j
+               end.
